@@ -148,16 +148,21 @@ def one(ctx, c, tmp):
         return 'text mode prints %d answers, --outf=2 reports %d witnesses' % (len(answers), len(wit)), 'count'
     lines = [model_line(v, h) for h, v in wit]
     exp = ctx.model().run(lines) if lines else []
-    for (h, v), a, e in zip(wit, answers, exp):
+    want_all, got_all = [], []
+    for (h, v), e in zip(wit, exp):
         if e is None or e.startswith(('error', 'raises')):
             return 'model: %s for witness %s' % (e, v), 'model'
-        want = [sorted(x.strip()[1:-1].split()) for x in e.split(' | ')]
+        want_all.append((h, [sorted(x.strip()[1:-1].split()) for x in e.split(' | ')]))
+    for a in answers:
         got_idx = [k for k, _ in a]
-        if got_idx != list(range(h + 1)):
-            return 'answer at horizon %d prints states %s' % (h, got_idx), 'states'
-        got = [sorted(x) for _, x in a]
-        if got != want:
-            return 'answer at horizon %d: printed %s, shown atoms grouped by last argument %s (witness %s)' % (h, got, want, v), 'atoms'
+        if got_idx != list(range(len(got_idx))):
+            return 'an answer prints states %s' % got_idx, 'states'
+        got_all.append((len(a) - 1, [sorted(x) for _, x in a]))
+    # the two runs may enumerate the answer sets of one solve call in different orders (always possible with parallel threads):
+    # compare per horizon as multisets, and in order when the order happens to agree
+    if sorted(json.dumps(x) for x in want_all) != sorted(json.dumps(x) for x in got_all):
+        bad = [x for x in got_all if x not in want_all][:1] or got_all[:1]
+        return 'printed answers %s... are not the shown atoms grouped by last argument %s...' % (json.dumps(bad)[:300], json.dumps(want_all[:1])[:300]), 'atoms'
     return None, 'ok:%d' % len(wit)
 
 
